@@ -12,16 +12,22 @@
 //!
 //! Modular split (measured: one failed `expect()` of the real operator lexer costs ~4 s
 //! of symbolic execution because the drop glue of `LexErrorKind` is explored with an
-//! unfolded tag; `strict wildcard` is the 20th spelling tried):
+//! unfolded tag; `strict wildcard` is the 20th spelling tried; every error return of
+//! `lex_with_lhs` drops the left-hand side, whose drop glue is explored through the
+//! function-call variant of `IdentifierExpr`: ~80 s per call):
 //!   (A) `spelling_table__*`: the REAL `ComparisonOp::lex` maps each of the 20 spellings
-//!       to its operator and consumes exactly the spelling;
-//!   (B) `operator_matrix__*`: the REAL `lex_with_lhs`, with `ComparisonOp::lex` replaced
-//!       by its contract (A) and `IndexExpr::get_type` by its contract, for every
-//!       operator value.  The literal after the operator is `!`, which is malformed for
-//!       every type (no regex / IP / integer library is entered), so an admissible pair
-//!       ends in the literal lexer's error (kind != UnsupportedOp) and an inadmissible
-//!       one in UnsupportedOp{lhs_type}.
-//! Every case is its own loop-free call on a string literal.
+//!       to its operator and consumes exactly the spelling (one spelling per obligation);
+//!   (B) `row_<type>::op_<operator>`: the REAL `lex_with_lhs`, one (left type, operator)
+//!       cell per obligation, with its callees replaced by their contracts:
+//!       `ComparisonOp::lex` (contract = (A)), `IndexExpr::get_type` (discharged in
+//!       ast::index_expr::verif_kani::c04), the leaf literal lexers, `lex_rhs_values`,
+//!       `ListName::lex`, `Scheme::get_list`.  The text after the operator is `!`, which
+//!       is malformed for every type, so an admissible pair ends in the literal lexer's
+//!       error (kind != UnsupportedOp) - and the obligation also checks that the literal
+//!       lexer entered is the one of the LEFT-HAND TYPE - and an inadmissible pair ends
+//!       in UnsupportedOp{lhs_type};
+//!   (C) `bare_boolean__*`, `in_list__*`: the IsTrue rule and `in $list` without a list.
+//! Not registered (no result): `row_bytes::op_none` (500 s, twice) - see C04.toml.
 use super::super::*;
 use super::common::{index_expr_get_type__contract, LHS_TYPE};
 use crate::ast::index_expr::IndexExpr;
